@@ -289,6 +289,20 @@ func (m *Sim) nameLock(p unsafe.Pointer) string {
 			return "stream.writeLock"
 		}
 	}
+	// streams created by inbound data are not yet known to the harness: look them up
+	for _, a := range m.As {
+		if a == nil {
+			continue
+		}
+		for _, s := range a.streams {
+			if p == unsafe.Pointer(&s.lock) {
+				return "stream.lock"
+			}
+			if p == unsafe.Pointer(&s.writeLock) {
+				return "stream.writeLock"
+			}
+		}
+	}
 	return ""
 }
 
